@@ -303,7 +303,7 @@ func (g *dgen) body(self fnInfo, recv string, recvPtr bool, canRecurse bool) ([]
 	rec := false
 	n := g.pick("nbody", 5)
 	for k := 0; k < n; k++ {
-		switch g.pick("bodykind", 13) {
+		switch g.pick("bodykind", 15) {
 		case 12: // instantiate and call a generic function
 			if len(g.generics) > 0 {
 				f := g.generics[g.pick("gcallee", len(g.generics))]
@@ -417,6 +417,18 @@ func (g *dgen) body(self fnInfo, recv string, recvPtr bool, canRecurse bool) ([]
 				nm := g.scalarNamed[g.pick("bnamed", len(g.scalarNamed))]
 				lines = append(lines, fmt.Sprintf("var nv%d %s", k, nm), fmt.Sprintf("_ = nv%d", k))
 				deps = append(deps, nm)
+			}
+		case 13, 14: // the struct is mentioned only by a field store / a field address through a pointer
+			if len(g.structs) > 0 {
+				s := g.structs[g.pick("bstore", len(g.structs))]
+				fl := strings.SplitN(g.fields[s][g.pick("bstorefield", len(g.fields[s]))], " ", 2)
+				if g.chance("bfieldref", 40) {
+					lines = append(lines, fmt.Sprintf("var fp%d *%s", k, s), fmt.Sprintf("if false {\n\t\t_ = &fp%d.%s\n\t}", k, fl[0]))
+					deps = append(deps, s)
+				} else if z := zeroOf(fl[1]); z != "" {
+					lines = append(lines, fmt.Sprintf("var fp%d *%s", k, s), fmt.Sprintf("if false {\n\t\tfp%d.%s = %s\n\t}", k, fl[0], z))
+					deps = append(deps, s)
+				}
 			}
 		case 10: // slice / map of struct
 			if len(g.structs) > 0 {
